@@ -353,6 +353,10 @@ void QXmppOutgoingClient::_q_socketDisconnected()
     if (d->nextAddressState == QXmppOutgoingClientPrivate::TryNext) {
         d->connectToNextAddress();
     } else if (d->redirect) {
+        // a redirect may also arrive on an established session; that session is over now
+        if (d->sessionStarted) {
+            closeSession();
+        }
         d->connectToHost({ ServerAddress::Tcp, d->redirect->host, d->redirect->port });
         d->redirect.reset();
     } else {
